@@ -82,6 +82,11 @@ impl TcpConnector for TcpForwarder {
             TcpDestination::HostName(peer) => {
                 log_id!(trace, id, "Resolving peer: {:?}", peer);
 
+                #[cfg(feature = "verif")]
+                let resolved = crate::verif::hooks::lookup_host(&peer.0, peer.1)
+                    .await
+                    .map_err(io_to_connection_error)?;
+                #[cfg(not(feature = "verif"))]
                 let resolved = tokio::net::lookup_host(format!("{}:{}", peer.0, peer.1))
                     .await
                     .map_err(io_to_connection_error)?;
@@ -136,6 +141,10 @@ impl TcpConnector for TcpForwarder {
         };
 
         log_id!(trace, id, "Connecting to peer: {}", peer);
+        #[cfg(feature = "verif")]
+        if let Some(e) = crate::verif::hooks::on_tcp_connect(&peer) {
+            return Err(io_to_connection_error(e));
+        }
         let metrics_guard = self.context.metrics.clone().outbound_tcp_socket_counter();
         TcpStream::connect(peer)
             .await
